@@ -74,16 +74,17 @@ func (d *Data) TD() *document.TemplateData {
 
 // Op is one API call with generated arguments.
 type Op struct {
-	K    string     `json:"k"`
-	S    []string   `json:"s,omitempty"`
-	I    []int      `json:"i,omitempty"`
-	F    []float64  `json:"f,omitempty"`
-	B    []bool     `json:"b,omitempty"`
-	Img  *gen.Img   `json:"img,omitempty"`
-	Fmt  *Fmt       `json:"fmt,omitempty"`
-	Data *Data      `json:"data,omitempty"`
-	Grid [][]string `json:"grid,omitempty"`
-	Cls  []string   `json:"cls,omitempty"` // classes of the generated strings (labels only)
+	K     string     `json:"k"`
+	S     []string   `json:"s,omitempty"`
+	I     []int      `json:"i,omitempty"`
+	F     []float64  `json:"f,omitempty"`
+	B     []bool     `json:"b,omitempty"`
+	Img   *gen.Img   `json:"img,omitempty"`
+	Fmt   *Fmt       `json:"fmt,omitempty"`
+	Data  *Data      `json:"data,omitempty"`
+	Data2 *Data      `json:"data2,omitempty"` // second data set (tpldoc2)
+	Grid  [][]string `json:"grid,omitempty"`
+	Cls   []string   `json:"cls,omitempty"` // classes of the generated strings (labels only)
 }
 
 func (o Op) s(i int) string {
@@ -123,6 +124,20 @@ type Exec struct {
 	Errs   int
 	// Replaced is set when the document object was replaced (reopen, render, markdown).
 	Replaced int
+	// Side keeps the most recent documents that were replaced as the current one (template bases, earlier renders,
+	// documents before a reopen): they stay valid objects a caller may still save, so checks can judge them at the end.
+	Side []*document.Document
+}
+
+// keep remembers a document that stops being the current one (at most 4 are kept).
+func (x *Exec) keep(d *document.Document) {
+	if d == nil {
+		return
+	}
+	x.Side = append(x.Side, d)
+	if len(x.Side) > 4 {
+		x.Side = x.Side[len(x.Side)-4:]
+	}
 }
 
 func NewExec(dir string) *Exec {
@@ -627,6 +642,7 @@ func (x *Exec) do(o Op) error {
 		if err != nil {
 			return fmt.Errorf("reopen of own output failed: %w", err)
 		}
+		x.keep(d)
 		x.Doc = nd
 		x.resetHandles()
 	case "tplstr":
@@ -638,7 +654,30 @@ func (x *Exec) do(o Op) error {
 		if err != nil {
 			return err
 		}
+		x.keep(d)
 		x.Doc = nd
+		x.resetHandles()
+	case "tpldoc2":
+		// one document template rendered twice with different data; the first result stays alive (Side) and is
+		// saved only after the second render happened
+		if o.b(0) {
+			d.AddParagraph("{{#image p}}")
+		}
+		te := document.NewTemplateEngine()
+		if _, err := te.LoadTemplateFromDocument("t", d); err != nil {
+			return err
+		}
+		first, err := te.RenderTemplateToDocument("t", o.Data.TD())
+		if err != nil {
+			return err
+		}
+		second, err := te.RenderTemplateToDocument("t", o.Data2.TD())
+		if err != nil {
+			return err
+		}
+		x.keep(d)
+		x.keep(first)
+		x.Doc = second
 		x.resetHandles()
 	case "tpldoc":
 		te := document.NewTemplateEngine()
@@ -649,6 +688,7 @@ func (x *Exec) do(o Op) error {
 		if err != nil {
 			return err
 		}
+		x.keep(d)
 		x.Doc = nd
 		x.resetHandles()
 	case "md":
@@ -664,6 +704,7 @@ func (x *Exec) do(o Op) error {
 		if err != nil {
 			return err
 		}
+		x.keep(d)
 		x.Doc = nd
 		x.resetHandles()
 	default:
